@@ -3,5 +3,6 @@ CONSTANTS MaxDepth = 3
   Families <- FamT_F2
   StoreByCopy = TRUE
   TailKeepsSets = TRUE
+  SplitContinues = TRUE
 INVARIANT Emitted
 CHECK_DEADLOCK FALSE
